@@ -38,7 +38,8 @@ CONSTANTS Hosts,       \* subset of {"tokio", "futures"}; the host is chosen in 
           Timers,      \* timers           (names)
           Jobs,        \* blocking jobs    (names)
           Owner,       \* [Ops \cup Timers \cup Jobs -> {"main"} \cup Tasks \cup {"none"}]; "none" = nobody waits for it any more
-          Muts,        \* subset of {"none", "clearAfterPoll", "ignoreFlush", "noTimeout", "noFlush", "drainAfterBlocking"}
+          Muts,        \* subset of {"none", "clearAfterPoll", "ignoreFlush", "noTimeout", "noFlush",
+                       \*            "flushSeesCompleted", "drainAfterBlocking", "repaired"}
           AnyTurn      \* TRUE: the host's reactor may run at any time (reactor on another thread);
                        \* FALSE: only while the loop is parked in the host (current-thread host)
 
@@ -58,9 +59,10 @@ VARIABLES host, mut,
           tmo,         \* timeout handed to Adapter::wait: "zero" | "timer" | "none"
           wres,        \* what the last wait returned: "ready" | "timedout" | "none"
           fin,         \* [Tasks -> BOOLEAN] task finished
-          done         \* the future given to execute() is ready
+          done,        \* the future given to execute() is ready
+          skipped      \* the last Proactor::poll returned after poll_blocking and left completions undrained
 
-xvars == <<host, mut, xpc, opSt, opBatch, tmSt, jobSt, jobTaken, got, regSig, hEdge, hReady, tmo, wres, fin, done>>
+xvars == <<host, mut, xpc, opSt, opBatch, tmSt, jobSt, jobTaken, got, regSig, hEdge, hReady, tmo, wres, fin, done, skipped>>
 allvars == <<vars, xvars>>
 
 Srcs == Ops \cup Timers \cup Jobs
@@ -79,14 +81,14 @@ XInit == /\ Init
          /\ jobTaken = [j \in Jobs |-> FALSE]
          /\ got = [s \in Srcs |-> FALSE]
          /\ regSig = FALSE /\ hEdge = FALSE /\ hReady = FALSE /\ tmo = "none" /\ wres = "none"
-         /\ fin = [t \in Tasks |-> FALSE] /\ done = FALSE
+         /\ fin = [t \in Tasks |-> FALSE] /\ done = FALSE /\ skipped = FALSE
 
 \* ------------------------------------------------------------------ lifting Wakeup's actions
 \* every completion entry posted (Wakeup counts the notifier's in cq) signals the registered eventfd and is an
 \* edge for the host
 SigCq == /\ regSig' = (regSig \/ (Driver = "iour" /\ cq' > cq))
          /\ hEdge' = (hEdge \/ cq' > cq)
-XRestE == <<host, mut, xpc, opSt, opBatch, tmSt, jobSt, jobTaken, got, hReady, tmo, wres, fin, done>>
+XRestE == <<host, mut, xpc, opSt, opBatch, tmSt, jobSt, jobTaken, got, hReady, tmo, wres, fin, done, skipped>>
 \* an action of another thread / of the kernel
 LiftE(A) == A /\ SigCq /\ UNCHANGED XRestE
 \* a segment of the runtime thread that touches nothing of this module
@@ -126,7 +128,7 @@ XPollMain ==
   /\ xpc = "run" /\ ~done /\ RPollMain /\ SigCq
   /\ XPollEffects("main")
   /\ done' = TReady("main")
-  /\ UNCHANGED <<host, mut, xpc, opBatch, jobTaken, hReady, tmo, wres, fin>>
+  /\ UNCHANGED <<host, mut, xpc, opBatch, jobTaken, hReady, tmo, wres, fin, skipped>>
 
 \* [x.task] Task::run of the head of the hot queue; a finished task is not polled any more
 XRunTask ==
@@ -137,7 +139,7 @@ XRunTask ==
          ELSE /\ XPollEffects(t)
               /\ fin' = [fin EXCEPT ![t] = TReady(t)]
               /\ xpc' = IF TReady(t) THEN "joinwake" ELSE "run"
-  /\ UNCHANGED <<host, mut, opBatch, jobTaken, hReady, tmo, wres, done>>
+  /\ UNCHANGED <<host, mut, opBatch, jobTaken, hReady, tmo, wres, done, skipped>>
 
 \* the finished task wakes its JoinHandle, which the main future holds: the driver's waker
 XJoinWake ==
@@ -145,11 +147,11 @@ XJoinWake ==
   /\ LocalWake(TRUE) /\ SigCq
   /\ xpc' = "run"
   /\ UNCHANGED <<hot, pcR>> /\ UNCHANGED WRest
-  /\ UNCHANGED <<host, mut, opSt, opBatch, tmSt, jobSt, jobTaken, got, hReady, tmo, wres, fin, done>>
+  /\ UNCHANGED <<host, mut, opSt, opBatch, tmSt, jobSt, jobTaken, got, hReady, tmo, wres, fin, done, skipped>>
 
 \* ------------------------------------------------------------------ run(): the rest of the tick is Wakeup's
 SubmitOps == opSt' = [o \in Ops |-> IF opSt[o] = "sq" THEN "kernel" ELSE opSt[o]]
-XRestSub == <<host, mut, xpc, opBatch, tmSt, jobSt, jobTaken, got, hReady, tmo, wres, fin, done>>
+XRestSub == <<host, mut, xpc, opBatch, tmSt, jobSt, jobTaken, got, hReady, tmo, wres, fin, done, skipped>>
 
 \* ------------------------------------------------------------------ [drv.flush] remaining_tasks |= flush()
 Flushing == mut # "noFlush" /\ ~done
@@ -159,42 +161,49 @@ XFlushLeave == LiftR(RFlushLeave)
 \* [awake.reset] inside flush; the loop goes on to choose the timeout
 XFlushReset == /\ (pcR = "flush" => Flushing) /\ xpc = "run" /\ RFlushReset /\ SigCq
                /\ xpc' = "decide"
-               /\ UNCHANGED <<host, mut, opSt, opBatch, tmSt, jobSt, jobTaken, got, hReady, tmo, wres, fin, done>>
+               /\ UNCHANGED <<host, mut, opSt, opBatch, tmSt, jobSt, jobTaken, got, hReady, tmo, wres, fin, done, skipped>>
 \* control "noFlush": drive() does not call flush at all
 XNoFlush == /\ xpc = "run" /\ pcR = "flush" /\ mut = "noFlush" /\ ~done
             /\ pcR' = "extWait" /\ extNotified' = FALSE /\ xpc' = "decide"
             /\ UNCHANGED <<flag, efd, armed, sqNotif, needPush, cq, batch, owed, syncq, pending, sched, scheduling, hot, reg,
                            cond, seen, pcW, wNotified, needWait, drained, inKernel, lastPopped, lastOv>>
-            /\ UNCHANGED <<host, mut, opSt, opBatch, tmSt, jobSt, jobTaken, got, regSig, hEdge, hReady, tmo, wres, fin, done>>
+            /\ UNCHANGED <<host, mut, opSt, opBatch, tmSt, jobSt, jobTaken, got, regSig, hEdge, hReady, tmo, wres, fin, done, skipped>>
 
 \* ------------------------------------------------------------------ the adapter
 AU == <<flag, efd, armed, sqNotif, needPush, cq, batch, owed, syncq, pending, sched, scheduling, hot, reg,
         cond, seen, pcW, wNotified, needWait, drained, inKernel, lastPopped, extNotified, lastOv>>   \* vars without pcR
 
+\* hypothetical repairs (never the code as it is): flush() also reports an entry waiting in the completed channel;
+\* poll goes on to drain the completion queue after poll_blocking
+FlushSeesCompleted == mut \in {"flushSeesCompleted", "repaired"}
+DrainAfterBlocking == mut \in {"drainAfterBlocking", "repaired"}
+SentUntaken == {j \in Jobs : jobSt[j] \in {"sent", "write", "woke"} /\ ~jobTaken[j]}
 \* timeout = if remaining_tasks { ZERO } else { current_timeout() }
 ADecide ==
   /\ xpc = "decide" /\ pcR = "extWait"
-  /\ tmo' = IF hot # <<>> \/ (extNotified /\ mut # "ignoreFlush") THEN "zero"
+  /\ tmo' = IF hot # <<>> \/ (extNotified /\ mut # "ignoreFlush") \/ (FlushSeesCompleted /\ SentUntaken # {}) THEN "zero"
             ELSE IF mut # "noTimeout" /\ \E t \in Timers : tmSt[t] \in {"armed", "due"} THEN "timer"
             ELSE "none"
   /\ xpc' = "wait"
   /\ UNCHANGED pcR /\ UNCHANGED AU
-  /\ UNCHANGED <<host, mut, opSt, opBatch, tmSt, jobSt, jobTaken, got, regSig, hEdge, hReady, wres, fin, done>>
+  /\ UNCHANGED <<host, mut, opSt, opBatch, tmSt, jobSt, jobTaken, got, regSig, hEdge, hReady, wres, fin, done, skipped>>
 
 \* [x.wait.enter] first poll of Adapter::wait(timeout).
 \*   tokio:   AsyncFd::readable() is ready iff the cached readiness is set; clear_ready follows at once (the tick
-\*            stored in the guard keeps a newer event alive, so "observe and clear" is one step); otherwise a zero
-\*            timeout has elapsed (TimedOut, clear_ready skipped), anything else parks in the host.
-\*   futures: the first poll of Async::readable() registers the interest and is Pending; Timer::after(ZERO) is ready.
+\*            stored in the guard keeps a newer event alive, so "observe and clear" is one step); otherwise the task
+\*            yields to the host - also with a ZERO timeout: tokio's Sleep rounds up to its next millisecond tick,
+\*            the reactor runs before it fires (measured: 2 ms for a zero timeout on an idle descriptor).
+\*   futures: the first poll of Async::readable() registers the interest and is Pending; Timer::after(ZERO) is ready
+\*            at its first poll: TimedOut without yielding.
 AWaitPoll ==
   /\ xpc = "wait"
   /\ IF host = "tokio" /\ hReady
        THEN hReady' = FALSE /\ wres' = "ready" /\ xpc' = "clear"
-       ELSE IF tmo = "zero"
+       ELSE IF host = "futures" /\ tmo = "zero"
          THEN wres' = "timedout" /\ xpc' = "clear" /\ UNCHANGED hReady
          ELSE xpc' = "parked" /\ UNCHANGED <<hReady, wres>>
   /\ UNCHANGED pcR /\ UNCHANGED AU
-  /\ UNCHANGED <<host, mut, opSt, opBatch, tmSt, jobSt, jobTaken, got, regSig, hEdge, tmo, fin, done>>
+  /\ UNCHANGED <<host, mut, opSt, opBatch, tmSt, jobSt, jobTaken, got, regSig, hEdge, tmo, fin, done, skipped>>
 
 \* the host's reactor harvests its poller.  tokio registers edge-triggered: the kernel reports the queued
 \* notification only if the descriptor is still readable when the reactor looks (ep_item_poll)
@@ -203,7 +212,7 @@ HTurn ==
   /\ (AnyTurn \/ xpc = "parked")
   /\ hEdge' = FALSE /\ hReady' = (hReady \/ Level)
   /\ UNCHANGED vars
-  /\ UNCHANGED <<host, mut, xpc, opSt, opBatch, tmSt, jobSt, jobTaken, got, regSig, tmo, wres, fin, done>>
+  /\ UNCHANGED <<host, mut, xpc, opSt, opBatch, tmSt, jobSt, jobTaken, got, regSig, tmo, wres, fin, done, skipped>>
 
 \* the parked wait returns: readiness (tokio: cached bit, futures: the reactor sees the descriptor readable) ...
 AWakeReady ==
@@ -211,13 +220,14 @@ AWakeReady ==
   /\ IF host = "tokio" THEN hReady ELSE Level
   /\ hReady' = FALSE /\ wres' = "ready" /\ xpc' = "clear"
   /\ UNCHANGED pcR /\ UNCHANGED AU
-  /\ UNCHANGED <<host, mut, opSt, opBatch, tmSt, jobSt, jobTaken, got, regSig, hEdge, tmo, fin, done>>
+  /\ UNCHANGED <<host, mut, opSt, opBatch, tmSt, jobSt, jobTaken, got, regSig, hEdge, tmo, fin, done, skipped>>
 \* ... or the host's timer (armed with current_timeout(), the earliest deadline of the wheel)
+TimeoutNow == tmo = "zero" \/ (tmo = "timer" /\ \E t \in Timers : tmSt[t] = "due")
 AWakeTimeout ==
-  /\ xpc = "parked" /\ tmo = "timer" /\ \E t \in Timers : tmSt[t] = "due"
+  /\ xpc = "parked" /\ TimeoutNow
   /\ wres' = "timedout" /\ xpc' = "clear"
   /\ UNCHANGED pcR /\ UNCHANGED AU
-  /\ UNCHANGED <<host, mut, opSt, opBatch, tmSt, jobSt, jobTaken, got, regSig, hEdge, hReady, tmo, fin, done>>
+  /\ UNCHANGED <<host, mut, opSt, opBatch, tmSt, jobSt, jobTaken, got, regSig, hEdge, hReady, tmo, fin, done, skipped>>
 
 \* [x.clear] Adapter::clear(): read the registered eventfd (nothing to do on the polling driver); then poll_with(ZERO)
 AClear ==
@@ -225,10 +235,9 @@ AClear ==
   /\ regSig' = (regSig /\ mut = "clearAfterPoll")
   /\ pcR' = "reset" /\ xpc' = "run"
   /\ UNCHANGED AU
-  /\ UNCHANGED <<host, mut, opSt, opBatch, tmSt, jobSt, jobTaken, got, hEdge, hReady, tmo, wres, fin, done>>
+  /\ UNCHANGED <<host, mut, opSt, opBatch, tmSt, jobSt, jobTaken, got, hEdge, hReady, tmo, wres, fin, done, skipped>>
 
 \* ------------------------------------------------------------------ [drv.poll] poll_with(ZERO) = Proactor::poll(ZERO) + timers
-SentUntaken == {j \in Jobs : jobSt[j] \in {"sent", "write", "woke"} /\ ~jobTaken[j]}
 JobOwners(S) == {Owner[j] : j \in S}
 
 \* io_uring: `if self.poll_blocking() { return Ok(()) }` - the entries of the completed channel are delivered
@@ -237,8 +246,9 @@ XPollBlocking ==
   /\ xpc = "run" /\ pcR = "reset" /\ Driver = "iour" /\ SentUntaken # {}
   /\ jobTaken' = [j \in Jobs |-> jobTaken[j] \/ j \in SentUntaken]
   /\ WakeOwners(JobOwners(SentUntaken)) /\ SigCq
-  /\ IF mut = "drainAfterBlocking" THEN UNCHANGED <<pcR, xpc>>          \* hypothetical repair: go on with the poll
+  /\ IF DrainAfterBlocking THEN UNCHANGED <<pcR, xpc>>                  \* hypothetical repair: go on with the poll
                                     ELSE pcR' = "pollMain" /\ xpc' = "timers"
+  /\ skipped' = (~DrainAfterBlocking /\ (cq' > 0 \/ \E o \in Ops : opSt[o] = "cqe"))
   /\ UNCHANGED WRest
   /\ UNCHANGED <<host, mut, opSt, opBatch, tmSt, jobSt, got, hReady, tmo, wres, fin, done>>
 
@@ -254,11 +264,12 @@ XLeaveTimedOut ==
   /\ pcR' = "pollMain" /\ xpc' = "timers"
   /\ UNCHANGED AU
   /\ UNCHANGED <<host, mut, opSt, opBatch, tmSt, jobSt, jobTaken, got, regSig, hEdge, hReady, tmo, wres, fin, done>>
+  /\ skipped' = FALSE
 \* [drv.wait.leave]; polling driver: Poller::wait returned the pending events
 XLeave ==
   /\ xpc = "run" /\ ~TimedOutCase /\ RLeave /\ SigCq
   /\ opBatch' = IF Driver = "poll" THEN {o \in Ops : opSt[o] = "cqe"} ELSE opBatch
-  /\ UNCHANGED <<host, mut, xpc, opSt, tmSt, jobSt, jobTaken, got, hReady, tmo, wres, fin, done>>
+  /\ UNCHANGED <<host, mut, xpc, opSt, tmSt, jobSt, jobTaken, got, hReady, tmo, wres, fin, done, skipped>>
 \* [awake.set] first; io_uring: poll_entries starts iterating a snapshot of the completion queue;
 \* polling driver (external mode): Wakeup returns to the loop from here - the events are handled first
 XAwake1 ==
@@ -266,6 +277,7 @@ XAwake1 ==
   /\ opBatch' = IF Driver = "iour" THEN {o \in Ops : opSt[o] = "cqe"} ELSE opBatch
   /\ xpc' = IF Driver = "poll" THEN (IF opBatch # {} \/ SentUntaken # {} THEN "entries" ELSE "timers") ELSE "run"
   /\ UNCHANGED <<host, mut, opSt, tmSt, jobSt, jobTaken, got, hReady, tmo, wres, fin, done>>
+  /\ skipped' = FALSE
 XClearN == LiftR(RClear)
 \* the operation entries of the snapshot: Entry::notify -> set_result -> the owner's waker.
 \* polling driver: also the entries of the completed channel (poll_completed)
@@ -280,12 +292,12 @@ XEntries ==
   /\ opBatch' = {}
   /\ xpc' = IF Driver = "poll" THEN "timers" ELSE "run"
   /\ UNCHANGED pcR /\ UNCHANGED WRest
-  /\ UNCHANGED <<host, mut, tmSt, jobSt, got, hReady, tmo, wres, fin, done>>
+  /\ UNCHANGED <<host, mut, tmSt, jobSt, got, hReady, tmo, wres, fin, done, skipped>>
 \* [awake.set] second, end of Proactor::poll
 XAwake2 ==
   /\ xpc = "run" /\ opBatch = {} /\ RAwake2 /\ SigCq
   /\ xpc' = "timers"
-  /\ UNCHANGED <<host, mut, opSt, opBatch, tmSt, jobSt, jobTaken, got, hReady, tmo, wres, fin, done>>
+  /\ UNCHANGED <<host, mut, opSt, opBatch, tmSt, jobSt, jobTaken, got, hReady, tmo, wres, fin, done, skipped>>
 \* timer_runtime.wake(): every entry of the wheel whose deadline has passed is removed and its waker invoked.
 \* control "clearAfterPoll": the adapter's clear() comes here instead of before poll_with
 XTimers ==
@@ -297,7 +309,7 @@ XTimers ==
   /\ regSig' = IF mut = "clearAfterPoll" THEN FALSE ELSE (regSig \/ (Driver = "iour" /\ cq' > cq))
   /\ xpc' = "run"
   /\ UNCHANGED pcR /\ UNCHANGED WRest
-  /\ UNCHANGED <<host, mut, opSt, opBatch, jobSt, jobTaken, got, hReady, tmo, wres, fin, done>>
+  /\ UNCHANGED <<host, mut, opSt, opBatch, jobSt, jobTaken, got, hReady, tmo, wres, fin, done, skipped>>
 
 \* ------------------------------------------------------------------ environment
 \* the descriptor of an operation becomes ready: the kernel posts its completion entry (io_uring: the registered
@@ -307,33 +319,33 @@ KOpReady(o) ==
   /\ opSt' = [opSt EXCEPT ![o] = "cqe"]
   /\ regSig' = (regSig \/ Driver = "iour") /\ hEdge' = TRUE
   /\ UNCHANGED vars
-  /\ UNCHANGED <<host, mut, xpc, opBatch, tmSt, jobSt, jobTaken, got, hReady, tmo, wres, fin, done>>
+  /\ UNCHANGED <<host, mut, xpc, opBatch, tmSt, jobSt, jobTaken, got, hReady, tmo, wres, fin, done, skipped>>
 \* a deadline passes
 TimeDue(t) ==
   /\ tmSt[t] = "armed"
   /\ tmSt' = [tmSt EXCEPT ![t] = "due"]
   /\ UNCHANGED vars
-  /\ UNCHANGED <<host, mut, xpc, opSt, opBatch, jobSt, jobTaken, got, regSig, hEdge, hReady, tmo, wres, fin, done>>
+  /\ UNCHANGED <<host, mut, xpc, opSt, opBatch, jobSt, jobTaken, got, regSig, hEdge, hReady, tmo, wres, fin, done, skipped>>
 \* pool thread (push_blocking's closure): completed.send(entry) ...
 JSend(j) ==
   /\ jobSt[j] = "running"
   /\ jobSt' = [jobSt EXCEPT ![j] = "sent"]
   /\ UNCHANGED vars
-  /\ UNCHANGED <<host, mut, xpc, opSt, opBatch, tmSt, jobTaken, got, regSig, hEdge, hReady, tmo, wres, fin, done>>
+  /\ UNCHANGED <<host, mut, xpc, opSt, opBatch, tmSt, jobTaken, got, regSig, hEdge, hReady, tmo, wres, fin, done, skipped>>
 \* ... waker.wake(): [awake.wake] fetch_or(NOTIFIED) ...
 JFetchOr(j) ==
   /\ jobSt[j] = "sent"
   /\ flag' = OrN(flag)
   /\ jobSt' = [jobSt EXCEPT ![j] = IF flag = IDLE THEN "write" ELSE "woke"]
   /\ UNCHANGED <<efd, cq, owed, hot, pcR>> /\ UNCHANGED WRest
-  /\ UNCHANGED <<host, mut, xpc, opSt, opBatch, tmSt, jobTaken, got, regSig, hEdge, hReady, tmo, wres, fin, done>>
+  /\ UNCHANGED <<host, mut, xpc, opSt, opBatch, tmSt, jobTaken, got, regSig, hEdge, hReady, tmo, wres, fin, done, skipped>>
 \* ... [notify.write] iff the flag was IDLE
 JWrite(j) ==
   /\ jobSt[j] = "write"
   /\ WriteEffects /\ SigCq
   /\ jobSt' = [jobSt EXCEPT ![j] = "woke"]
   /\ UNCHANGED <<flag, hot, pcR>> /\ UNCHANGED WRest
-  /\ UNCHANGED <<host, mut, xpc, opSt, opBatch, tmSt, jobTaken, got, hReady, tmo, wres, fin, done>>
+  /\ UNCHANGED <<host, mut, xpc, opSt, opBatch, tmSt, jobTaken, got, hReady, tmo, wres, fin, done, skipped>>
 JStep(j) == JSend(j) \/ JFetchOr(j) \/ JWrite(j)
 
 \* ------------------------------------------------------------------ the whole
@@ -374,16 +386,17 @@ Parked == xpc = "parked"
 Submitted == Parked => /\ \A o \in Ops : opSt[o] # "sq"
                        /\ (Driver = "iour" => armed /\ ~sqNotif)
 \* a pending timer bounds the sleep
-TimerCovered == (Parked /\ \E t \in Timers : tmSt[t] \in {"armed", "due"}) => tmo = "timer"
+TimerCovered == (Parked /\ \E t \in Timers : tmSt[t] \in {"armed", "due"}) => tmo \in {"timer", "zero"}
 \* will the parked wait return without anything new happening?
 WillWake == IF host = "tokio" THEN (hReady \/ (hEdge /\ Level)) ELSE Level
 \* NO COMPLETION IS LOST: the host does not sleep without bound over a completion that sits unprocessed in the
 \* completion queue / the poller / the completed channel unless the waited descriptor will report it
-UnprocessedCompletion == \/ cq > 0 \/ \E o \in Ops : opSt[o] = "cqe"
+\* (a notifier completion carries nothing itself: the wake-up it stands for is the subject of NeverStuckX)
+UnprocessedCompletion == \/ \E o \in Ops : opSt[o] = "cqe"
                          \/ \E j \in Jobs : jobSt[j] = "woke" /\ ~jobTaken[j]
-\* (a wake-up whose eventfd write / notifier completion is still on its way will end the sleep)
-SigInFlight == \/ owed > 0 \/ \E w \in Wakers : pcW[w] \in {"write", "writeFull"}
-               \/ \E j \in Jobs : jobSt[j] = "write"
+\* (a thread that is in the middle of a wake-up will end the sleep: flag IDLE -> eventfd write -> completion)
+SigInFlight == \/ owed > 0 \/ \E w \in Wakers : pcW[w] \notin {"begin", "done"}
+               \/ \E j \in Jobs : jobSt[j] \in {"sent", "write"}
 NoStrandedCompletion == (Parked /\ tmo = "none" /\ UnprocessedCompletion /\ ~SigInFlight) => WillWake
 \* NO WAKE-UP IS LOST (Wakeup!Stuck carried over to the adapter's wait): parked without bound, nothing in flight
 \* anywhere, the wait will not return, and somebody has not been polled since its condition was set
@@ -392,17 +405,29 @@ Quiet == /\ \A w \in Wakers : pcW[w] = "done"
          /\ \A o \in Ops : opSt[o] # "kernel"
          /\ \A j \in Jobs : jobSt[j] \in {"new", "woke"}
          /\ \A t \in Timers : tmSt[t] # "armed"
-XStuck == Parked /\ ~WillWake /\ Quiet /\ ~(tmo = "timer" /\ \E t \in Timers : tmSt[t] = "due")
+XStuck == Parked /\ ~WillWake /\ Quiet /\ ~TimeoutNow
 NeverStuckX == ~XStuck
 
-RealSafe == Real => (Submitted /\ TimerCovered /\ NoStrandedCompletion /\ NeverStuckX)
+\* KNOWN DEVIATION (finding X03-iour-blocking-completion-lost): an entry of the completed channel whose Notify::wake
+\* fell between the two set_awake of Proactor::poll is invisible to flush(): the host sleeps over it
+BlockingDeviation == Driver = "iour" /\ \E j \in Jobs : jobSt[j] = "woke" /\ ~jobTaken[j]
+\* KNOWN DEVIATION (finding X03-iour-poll-blocking-skips-drain): poll returned after poll_blocking although the adapter
+\* had already consumed the eventfd signal of completions that are still in the queue (needs an entry whose
+\* set_result wakes nobody, otherwise the owner's wake rescues the round)
+SkippedDeviation == Driver = "iour" /\ skipped
+Strict == Submitted /\ TimerCovered /\ NoStrandedCompletion /\ NeverStuckX
+RealSafe == Real => (Submitted /\ TimerCovered /\ (BlockingDeviation \/ SkippedDeviation \/ (NoStrandedCompletion /\ NeverStuckX)))
+\* the code as it is against the strict property: violated exactly by the known deviation (programs with jobs)
+FindingStrict == Real => Strict
 \* one invariant per control: the mutated loop must break it
 CtlClearAfterPoll == mut = "clearAfterPoll" => (NoStrandedCompletion /\ NeverStuckX)
 CtlIgnoreFlush    == mut = "ignoreFlush" => NeverStuckX
 CtlNoTimeout      == mut = "noTimeout" => TimerCovered
 CtlNoFlush        == mut = "noFlush" => Submitted
-\* the hypothetical repair of poll (drain the completion queue also after poll_blocking) keeps everything
-CtlDrainAfterBlocking == mut = "drainAfterBlocking" => (Submitted /\ TimerCovered /\ NoStrandedCompletion /\ NeverStuckX)
+\* the hypothetical repairs: which of them restores the strict property
+RepFlushSeesCompleted == mut = "flushSeesCompleted" => Strict
+RepDrainAfterBlocking == mut = "drainAfterBlocking" => Strict
+RepBoth == mut = "repaired" => Strict
 
 \* liveness (fair specification, no state constraint): the future given to execute() completes - which needs every
 \* wake-up, completion and timer of the program to be delivered
